@@ -421,3 +421,8 @@ def replay_dyn_wrapper():
 _c17_obl5 = obligations
 def obligations():
     return _c17_obl5() + [Ob('O17.5-dyn-wrapper-target', 'the dyn wrapper of (trait, type, method) forwards to the implementation of that trait for that type', ob_dyn_wrapper_target, ('quick', 'thorough'), 3, {})]
+
+_c17_obl6 = obligations
+def obligations():
+    from props import mono_ob
+    return _c17_obl6() + mono_ob.obligations_c17()
